@@ -140,6 +140,16 @@ func c07Recipe(c *Ctx, k int) spg.CharRecipe {
 		}
 		rec = reqPatternRecipe(r, nset)
 	}
+	if r.Chance(1, 100) { // 9-12 required sets: thousands of inclusion-exclusion terms
+		k := r.Range(9, 12)
+		rec = spg.CharRecipe{}
+		letters := oracle.Chars("abcdefghijklmnopqrstuvwxyzABCDEFGHIJKLMNOPQRSTUVWXYZ0123456789")
+		for i := 0; i < k; i++ {
+			rec.RequireSets = append(rec.RequireSets, strings.Join(letters[5*i:5*i+r.Range(2, 5)], ""))
+		}
+		rec.Length = r.Range(k, 3*k+10)
+		return rec
+	}
 	switch r.Intn(10) {
 	case 0:
 		rec.Length = []int{20, 64, 255, 1000, 4096}[r.Intn(5)]
@@ -196,7 +206,7 @@ func c07Case(c *Ctx) {
 			continue
 		}
 		nr := nReqSets(rec)
-		if nr > 9 {
+		if nr > 12 {
 			c.Count("skipped_too_many_sets", 1)
 			continue
 		}
